@@ -701,6 +701,35 @@ class VhdlScope:
 
         self._declarations = declarations
 
+        # enumeration literals are declared together with their type
+        # and cannot be renamed, reserve them before all other objects are named
+        # (the same literal may be used by more than one enumeration type)
+        if self._parent is None:
+            enum_literals = set()
+        else:
+            enum_literals = set(getattr(self._parent, "_enum_literals", ()))
+
+        for decl in declarations.values():
+            obj = decl.obj
+
+            if isinstance(obj, type) and issubclass(
+                obj, (cohdl_enum.Enum, cohdl_enum.DynamicEnum)
+            ):
+                if issubclass(obj, cohdl_enum.Enum):
+                    literals = list(obj.__members__.keys())
+                else:
+                    literals = [member.name for member in obj.__members__]
+
+                for literal in literals:
+                    assert (
+                        literal.lower() not in used_names
+                        or literal.lower() in enum_literals
+                    ), f"enumerator '{literal}' of '{obj.__name__}' collides with a reserved name or another declaration"
+                    enum_literals.add(literal.lower())
+
+        used_names |= enum_literals
+        self._enum_literals = enum_literals
+
         for id, decl in declarations.items():
             obj = decl.obj
 
